@@ -45,7 +45,7 @@ GRID_INVS = ["NonNegative", "SumToOne", "Partition", "OrbitWeight", "ImagesCover
 DIV_INVS = ["InitialWeight", "TotalWeightKept", "NonNegative", "ParentsDead", "SubcellsTile", "SubcellsWeight", "MergeKeepsWeight",
             "NoDuplicates", "NoMergeWithoutSymmetry", "ZoneTiled"]
 EXCL_INVS = ["WellFormed", "LoopEqualsDeclarative", "WeightKept", "Lossless", "NewPointsUnique", "OldPointsStay"]
-TET_INVS = ["Embedding", "Positive", "VolumeKept", "WeightKept", "WeightByVolume", "Tiling", "SplitsOK", "ThresholdsMet", "EqualsLoops"]
+TET_INVS = ["Embedding", "Positive", "VolumeKept", "WeightKept", "WeightByVolume", "Tiling", "SplitsOK", "ThresholdsMet", "EqualsLoops", "NoStall"]
 
 
 def tset(vals):
@@ -76,10 +76,10 @@ def cfg_excl(lenmax, nkinds, lose):
             invs(EXCL_INVS) + "CHECK_DEADLOCK FALSE\n")
 
 
-def cfg_tetra(metrics, tvq, tsq, ns, keep):
+def cfg_tetra(metrics, tvq, tsq, ns, keep, even=False, breakeq=False):
     return (f"SPECIFICATION Spec\nCONSTANTS\n  S = {S_T}\n  M = {M_T}\n  NS = {ns}\n  WT = {WT_T}\n  Metrics = {tset(metrics)}\n"
-            f"  TVq = {tset(tvq)}\n  TSq = {tset(tsq)}\n  KeepWeight = {tlc.tla_value(keep)}\n" + invs(TET_INVS) +
-            "PROPERTY Termination\nCHECK_DEADLOCK FALSE\n")
+            f"  TVq = {tset(tvq)}\n  TSq = {tset(tsq)}\n  EvenThresholds = {tlc.tla_value(even)}\n  BreakOnEqual = {tlc.tla_value(breakeq)}\n"
+            f"  KeepWeight = {tlc.tla_value(keep)}\n" + invs(TET_INVS) + "PROPERTY Termination\nCHECK_DEADLOCK FALSE\n")
 
 
 def run_jobs(jobs, nworkers):
@@ -353,6 +353,59 @@ def replay_tetra(rep, st, rng, nsplit):
     rep.part("replay_tetra", runs=nruns, splits=min(nsplit, len(allsplits)))
 
 
+class Stalled(Exception):
+    pass
+
+
+def stall_probe(metric, which):
+    """Runs the real split_tetra_size / split_tetra_volume with the threshold EXACTLY equal to the largest attained size /
+    volume (read from the real objects, so the floats are identical).  The loops print once per iteration; the hook put in
+    place of print raises when the K list was the same in 50 consecutive iterations (the loop is deterministic: it would
+    never end).  Returns "stalls" or the list after a normal return."""
+    from wannierberri.grid import grid_tetra as GT
+    g, _ = real_tetra_grid(metric)
+    seen = []
+
+    def hook(*a, **k):
+        seen.append(tuple(id(K) for K in g.K_list))
+        if len(seen) > 100 and len(set(seen[-100:])) == 1:
+            raise Stalled()
+    GT.print = hook
+    try:
+        if which == "size":
+            g.split_tetra_size(float(g.size_max))
+        else:
+            g.split_tetra_volume(float(max(GT.tetra_volume(K.vertices) for K in g.K_list)))
+    except Stalled:
+        return "stalls"
+    finally:
+        del GT.print
+    return [W.tet_proj(K, S_T, WT_T) for K in g.K_list]
+
+
+def constructor_stall_example():
+    """the smallest natural example: cubic lattice a = 1, GridTetra(system, length = 2) (length_size = 1: dkmax equals the
+    face diagonal of the reciprocal cell)"""
+    from wannierberri.grid import grid_tetra as GT
+    syst = W.StubSystem(None, real_lattice=np.eye(3))
+    n = [0]
+
+    def hook(*a, **k):
+        n[0] += 1
+        if n[0] > 2000:
+            raise Stalled()
+    GT.print = hook
+    try:
+        GT.GridTetra(syst, length=2.0, NKFFT=1)
+    except Stalled:
+        return True
+    except Exception:
+        return False
+    finally:
+        del GT.print
+    return False
+
+
 def tetra_by_constructor(metric, tv2, ts2, f, nkfft=1):
     from wannierberri.grid.grid_tetra import GridTetra, GridTrigonal
     syst = W.tetra_system(metric)
@@ -593,14 +646,39 @@ def check(pid, tier):
     jobs["c06_divide_v0"] = ("MC_KMeshDivide.tla", cfg_divide(["ort_D2h", "tet_C4v"], [111, 211], [111, 100], [2, 3], 0, [], False, True), False)
     jobs["c06_excl_v0"] = ("MC_KMeshExcl.tla", cfg_excl(2, 3, True), False)
     jobs["c06_tetra_v0"] = ("MC_KMeshTetra.tla", cfg_tetra(["cub"], [2], [9], 4, True), False)
+    # thresholds equal to an attained value: does the real loop stall?  (decides which exit test the model uses)
+    import wannierberri  # noqa: F401  (lazy: costs seconds)
+    probes = {(m, w): stall_probe(m, w) for m in ("cub", "ort") for w in ("size", "volume")}
+    stalls = [k_ for k_, v in probes.items() if v == "stalls"]
+    if stalls and len(stalls) != len(probes):
+        raise MachineryError(f"equal-threshold probes disagree: {[(k_, v == 'stalls') for k_, v in probes.items()]}")
+    jobs["c06_tetra_eq"] = ("MC_KMeshTetra.tla", cfg_tetra(["cub", "ort"], [8, 4], [8, 4], 4, False, even=True, breakeq=not stalls), False)
     res = run_jobs(jobs, nw)
+    st_eq = res.pop("c06_tetra_eq")
+    if stalls:
+        # model of the code as written: TLC must find the stall, too; then it is a finding on the real code
+        if not st_eq.get("violation") or st_eq["violation"][1] not in ("NoStall", "Termination"):
+            raise MachineryError(f"the real loops stall at equal thresholds but the model does not: {st_eq.get('violation')}")
+        rep.part("c06_tetra_eq", model="loops as written", tlc_violation=st_eq["violation"][1])
+        rep.violation("GridTetra.split_tetra:no_termination_at_equal_threshold",
+                      dict(what="split_tetra_size(dkmax) / split_tetra_volume(vmax) never return when the threshold equals the largest attained "
+                                "size / volume: the loop ends only if max < threshold but splits only tetrahedra with value > threshold, so the "
+                                "K list is identical in every iteration (TLC: invariant NoStall of MC_KMeshTetra violated for even thresholds; "
+                                "real code: 100 consecutive iterations with the identical K list)",
+                           probes={f"{m}:{w}": "stalls" for m, w in stalls},
+                           minimal_example="GridTetra(system with real_lattice = eye(3), length = 2.0, NKFFT = 1) does not return",
+                           minimal_example_stalls=constructor_stall_example(), tlc_out=st_eq["meta"] + "/tlc.out"))
+    else:
+        ftable.spec_violation(rep, st_eq, "c06_tetra_eq")
+        rep.add_tlc("c06_tetra_eq", st_eq)
     must_fail(rep, res.pop("c06_divide_v0"), "c06_divide_v0", ("SubcellsTile",))
     must_fail(rep, res.pop("c06_excl_v0"), "c06_excl_v0", ("LoopEqualsDeclarative", "WeightKept", "Lossless"))
     must_fail(rep, res.pop("c06_tetra_v0"), "c06_tetra_v0", ("WeightKept", "WeightByVolume", "SplitsOK"))
+    specbad = False
     for name, st in res.items():
-        ftable.spec_violation(rep, st, name)
+        specbad |= bool(ftable.spec_violation(rep, st, name))
         rep.add_tlc(name, st)
-    if rep.violations:
+    if specbad:
         return rep.finish()
     tlc.check_not_vacuous(res["c06_grid_loop"], ["Create", "LoopBody", "LoopEnd", "DoFlatten"], "c06_grid_loop")
     tlc.check_not_vacuous(res["c06_grid_tab"], ["Call"], "c06_grid_tab")
@@ -608,7 +686,6 @@ def check(pid, tier):
     tlc.check_not_vacuous(res["c06_excl"], ["Call"], "c06_excl")
     tlc.check_not_vacuous(res["c06_tetra"], ["VolRound", "VolEnd", "SizRound", "SizEnd"], "c06_tetra")
 
-    import wannierberri  # noqa: F401  (lazy: costs seconds)
     bind_catalogue(rep, res["c06_groups"])
     replay_grid(rep, res["c06_grid_tab"], rng, ngrid)
     replay_divide(rep, res["c06_divide"], rng, ndivr)
